@@ -7,28 +7,62 @@ import (
 	"reflect"
 	"time"
 
+	"github.com/lugu/qiloop/bus"
 	"qv/internal/wg"
 )
 
-func (d *Driver) genVals(tys []*wg.Ty, maxLen int) []*wg.Val {
-	vs := make([]*wg.Val, len(tys))
+// genVals draws one value per type.  An object reference is a fresh object of that interface
+// added to svc; its proxy is returned in objs (same index), its identity stands in vals.
+func (d *Driver) genVals(tys []*wg.Ty, maxLen int, svc bus.Service) (vals []*wg.Val, objs []reflect.Value) {
+	vals, objs = make([]*wg.Val, len(tys)), make([]reflect.Value, len(tys))
 	for i, t := range tys {
-		vs[i] = wg.GenVal(d.rng, t, maxLen)
+		if isObj(t) {
+			p, _ := d.newObject(t.Name, svc)
+			vals[i], objs[i] = objVal(p), reflect.ValueOf(p)
+			continue
+		}
+		vals[i] = wg.GenVal(d.rng, t, maxLen)
 	}
-	return vs
+	return vals, objs
 }
 
-// fillArgs builds the Go arguments of a method value from data trees.
-func fillArgs(m reflect.Value, vals []*wg.Val) []reflect.Value {
+// fillArgs builds the Go arguments of a method value from data trees (objs, where valid,
+// are passed as they are).
+func fillArgs(m reflect.Value, vals []*wg.Val, objs []reflect.Value) []reflect.Value {
 	if m.Type().NumIn() != len(vals) {
 		panic(fmt.Sprintf("generated method takes %d arguments, the IDL declares %d", m.Type().NumIn(), len(vals)))
 	}
 	args := make([]reflect.Value, len(vals))
 	for i, v := range vals {
+		if i < len(objs) && objs[i].IsValid() {
+			args[i] = objs[i]
+			continue
+		}
 		args[i] = reflect.New(m.Type().In(i)).Elem()
 		Fill(args[i], v)
 	}
 	return args
+}
+
+// readAny: a Go value received by the other side as a data tree (objects by identity).
+func readAny(rv reflect.Value, t *wg.Ty) *wg.Val {
+	if isObj(t) {
+		if !rv.IsValid() || !rv.CanInterface() {
+			return objVal(nil)
+		}
+		return objVal(rv.Interface())
+	}
+	return Read(rv, t)
+}
+
+// unmodelled: object references are compared by identity only; no correspondence case.
+func unmodelled(l Leg, tys ...*wg.Ty) Leg {
+	for _, t := range tys {
+		if isObj(t) {
+			l.Seen = false
+		}
+	}
+	return l
 }
 
 func (d *Driver) takeGot(key string, tys []*wg.Ty) []*wg.Val {
@@ -39,7 +73,7 @@ func (d *Driver) takeGot(key string, tys []*wg.Ty) []*wg.Val {
 	var out []*wg.Val
 	for i, x := range g {
 		if i < len(tys) {
-			out = append(out, Read(reflect.ValueOf(x), tys[i]))
+			out = append(out, readAny(reflect.ValueOf(x), tys[i]))
 		}
 	}
 	return out
@@ -53,17 +87,26 @@ func method(obj interface{}, name string) reflect.Value {
 	return m
 }
 
-func (d *Driver) method(rec *Record, a Action, sid uint32, proxy interface{}, maxLen int) {
-	vals := d.genVals(a.Params, maxLen)
+func (d *Driver) method(rec *Record, a Action, t target, maxLen int) {
+	key := a.Key + t.inst
+	vals, objs := d.genVals(a.Params, maxLen, t.svc)
 	var rv *wg.Val
-	if a.Ret != nil {
+	var retObj interface{}
+	var retInst string
+	if isObj(a.Ret) {
+		retObj, retInst = d.newObject(a.Ret.Name, t.svc)
+		rv = objVal(retObj)
+		d.mu.Lock()
+		d.retObjs[key] = reflect.ValueOf(retObj)
+		d.mu.Unlock()
+	} else if a.Ret != nil {
 		rv = wg.GenVal(d.rng, a.Ret, maxLen)
 		d.mu.Lock()
-		d.rets[a.Key] = rv
+		d.rets[key] = rv
 		d.mu.Unlock()
 	}
-	m := method(proxy, a.Proxy)
-	args := fillArgs(m, vals)
+	m := method(t.proxy, a.Proxy)
+	args := fillArgs(m, vals, objs)
 	mk := d.tap.mark()
 	var out []reflect.Value
 	if !call(func() { out = m.Call(args) }) {
@@ -73,20 +116,29 @@ func (d *Driver) method(rec *Record, a Action, sid uint32, proxy interface{}, ma
 	}
 	c2s, s2c := d.tap.since(mk)
 	var sent, reply []byte
-	fs, fr := find(c2s, tCall, sid, a.ID), find(s2c, tReply, sid, a.ID)
+	fs, fr := find(c2s, tCall, t.sid, a.ID), find(s2c, tReply, t.sid, a.ID)
 	if fs != nil {
 		sent = fs.Payload
 	}
 	if fr != nil {
 		reply = fr.Payload
 	}
-	rec.Legs = append(rec.Legs, leg("args", 0, a.Params, vals, sent, fs != nil, d.takeGot(a.Key, a.Params)))
+	rec.Legs = append(rec.Legs, unmodelled(leg("args", 0, a.Params, vals, sent, fs != nil, d.takeGot(key, a.Params)), a.Params...))
 	if a.Ret != nil {
 		var got []*wg.Val
 		if rec.Err == "" && len(out) == 2 {
-			got = []*wg.Val{Read(out[0], a.Ret)}
+			got = []*wg.Val{readAny(out[0], a.Ret)}
 		}
-		rec.Legs = append(rec.Legs, leg("result", 1, []*wg.Ty{a.Ret}, []*wg.Val{rv}, reply, fr != nil, got))
+		rec.Legs = append(rec.Legs, unmodelled(leg("result", 1, []*wg.Ty{a.Ret}, []*wg.Val{rv}, reply, fr != nil, got), a.Ret))
+		if isObj(a.Ret) && rec.Err == "" && len(got) == 1 && got[0].Canon() == rv.Canon() {
+			// the caller holds a proxy to the object the implementor returned: exercise it
+			for i := range d.ifaces {
+				if d.ifaces[i].Name == a.Ret.Name {
+					sid, _, _ := ids(out[0].Interface())
+					d.pending = append(d.pending, target{it: &d.ifaces[i], proxy: out[0].Interface(), svc: t.svc, sid: sid, inst: retInst, via: "obj"})
+				}
+			}
+		}
 	}
 }
 
@@ -105,7 +157,7 @@ func recvEvent(ch reflect.Value, t *wg.Ty) []*wg.Val {
 	if i != 0 || !ok {
 		return nil
 	}
-	return []*wg.Val{Read(v, t)}
+	return []*wg.Val{readAny(v, t)}
 }
 
 func (d *Driver) subscribe(rec *Record, proxy interface{}, name string) (cancel func(), ch reflect.Value, ok bool) {
@@ -121,15 +173,16 @@ func (d *Driver) subscribe(rec *Record, proxy interface{}, name string) (cancel 
 	return out[0].Interface().(func()), out[1], true
 }
 
-func (d *Driver) signal(rec *Record, a Action, sid uint32, proxy, helper interface{}, maxLen int) {
-	vals := d.genVals(a.Params, maxLen)
+func (d *Driver) signal(rec *Record, a Action, t target, helper interface{}, maxLen int) {
+	sid, proxy := t.sid, t.proxy
+	vals, objs := d.genVals(a.Params, maxLen, t.svc)
 	cancel, ch, ok := d.subscribe(rec, proxy, a.Proxy)
 	if !ok {
 		return
 	}
 	defer call(cancel)
 	h := method(helper, a.Helper)
-	args := fillArgs(h, vals)
+	args := fillArgs(h, vals, objs)
 	mk := d.tap.mark()
 	var out []reflect.Value
 	if !call(func() { out = h.Call(args) }) {
@@ -149,7 +202,14 @@ func (d *Driver) signal(rec *Record, a Action, sid uint32, proxy, helper interfa
 	if got == nil && rec.Err == "" {
 		rec.Err = "timeout: no event reached the subscriber"
 	}
-	rec.Legs = append(rec.Legs, leg("event", 2, []*wg.Ty{a.Payload}, []*wg.Val{payloadVal(vals)}, data, f != nil, got))
+	rec.Legs = append(rec.Legs, unmodelled(leg("event", 2, []*wg.Ty{a.Payload}, []*wg.Val{payloadVal(vals)}, data, f != nil, got), a.Payload))
+}
+
+// firstErr keeps the first thing that went wrong in an action.
+func firstErr(rec *Record, msg string) {
+	if rec.Err == "" {
+		rec.Err = msg
+	}
 }
 
 func lenPrefixed(s string) []byte {
@@ -167,7 +227,9 @@ func stripPrefix(data, pre []byte) []byte {
 	return data
 }
 
-func (d *Driver) property(rec *Record, a Action, sid uint32, proxy, helper interface{}, maxLen int) {
+func (d *Driver) property(rec *Record, a Action, tg target, helper interface{}, maxLen int) {
+	sid, proxy := tg.sid, tg.proxy
+	akey := a.Key + tg.inst
 	t := a.Payload
 	// with one parameter the payload is the parameter; otherwise a structure of all of them,
 	// which the change callback and the update helper take apart
@@ -189,9 +251,9 @@ func (d *Driver) property(rec *Record, a Action, sid uint32, proxy, helper inter
 		var out []reflect.Value
 		var got []*wg.Val
 		if !call(func() { out = method(proxy, a.Proxy).Call(nil) }) {
-			rec.Err = "timeout: getter did not return"
+			firstErr(rec, "timeout: getter did not return")
 		} else if e := errOf(out[1]); e != "" {
-			rec.Err = "get-error: " + e
+			firstErr(rec, "get-error: "+e)
 		} else {
 			got = []*wg.Val{Read(out[0], t)}
 		}
@@ -209,7 +271,7 @@ func (d *Driver) property(rec *Record, a Action, sid uint32, proxy, helper inter
 	set := method(proxy, a.Set)
 	mk := d.tap.mark()
 	var out []reflect.Value
-	setArgs := fillArgs(set, []*wg.Val{v1})
+	setArgs := fillArgs(set, []*wg.Val{v1}, nil)
 	if !call(func() { out = set.Call(setArgs) }) {
 		rec.Err = "timeout: setter did not return"
 		return
@@ -227,7 +289,7 @@ func (d *Driver) property(rec *Record, a Action, sid uint32, proxy, helper inter
 	if fe != nil {
 		ev = fe.Payload
 	}
-	seen := d.takeGot(a.Key, a.Params)
+	seen := d.takeGot(akey, a.Params)
 	if len(a.Params) != 1 && len(seen) == len(a.Params) {
 		seen = []*wg.Val{payloadVal(seen)}
 	}
@@ -238,7 +300,7 @@ func (d *Driver) property(rec *Record, a Action, sid uint32, proxy, helper inter
 	v2 := wg.GenVal(d.rng, t, maxLen)
 	h := method(helper, a.Helper)
 	mk = d.tap.mark()
-	updArgs := fillArgs(h, parts(v2))
+	updArgs := fillArgs(h, parts(v2), nil)
 	if !call(func() { out = h.Call(updArgs) }) {
 		rec.Err = "timeout: update helper did not return"
 		return
